@@ -86,6 +86,17 @@ func (s *State) DeliverWith(e *Env, opName string, h Handler, msgs ...sdk.Msg) O
 	return out
 }
 
+// DeliverNoTx delivers msgs with empty transaction bytes (a message executed outside a transaction,
+// as a governance proposal's messages are).
+func (s *State) DeliverNoTx(e *Env, msgs ...sdk.Msg) Outcome {
+	out := e.DeliverBytes(s.Ctx, nil, nil, msgs...)
+	if out.OK {
+		s.dirty = true
+	}
+	s.Last = out.Class()
+	return out
+}
+
 // NextBlock advances the state by one block.
 func (s *State) NextBlock(e *Env, dt time.Duration) BlockOutcome {
 	ctx, bo := e.NextBlock(s.Ctx, dt)
